@@ -49,14 +49,15 @@ def faultc(scn, tr, b, elem, L=2, fmax=4, tier="quick", ylen=None):
     H(name, call, ["C06"], tier=tier, unwind=unwind_for(elem, capv + 1), dims=dict(L=L, cap=capv, source_len=yl, scenario=scn, fault_point="1..=%d (symbolic)" % fmax, elem=elem, backend=b, traits=tr, shape_symbolic=ylen is None), role="c06_faultclone_%s" % scn.lower())
 
 
-def liar(typed, tr, b, elem, L=2, tier="quick", start=None, end=None, ln=None):
+def liar(typed, tr, b, elem, L=2, tier="quick", start=None, end=None, ln=None, r="s2", dl="s4"):
+    """dl: 0..4 = len() off by -2..+2. Resizable storage: r and dl concrete (the reservation size depends on them)"""
     capv = L + 4
     start = "s%d" % L if start is None else start
     end = "s%d" % L if end is None else end
     ln = "s%d" % L if ln is None else ln
-    name = "c06_liar_%s__%s_%s_%s__L%d_l%s_s%s_e%s" % ("typed" if typed else "erased", tr, b, elem, L, ln, start, end)
-    call = "c06::liar_h::<%s, %s, %s>(%s, %s)" % (TR[tr], bk(b, elem, capv), elem, P2(capv, ln, start, end, 0, "s2"), "true" if typed else "false")
-    H(name, call, ["C06"], tier=tier, unwind=unwind_for(elem, capv + 1), dims=dict(L=L, cap=capv, len_delta="-2..=+2 (symbolic)", yielded="0..=2", elem=elem, backend=b, traits=tr, shape_symbolic=True), role="c06_liar")
+    name = "c06_liar_%s__%s_%s_%s__L%d_l%s_s%s_e%s_r%s_d%s" % ("typed" if typed else "erased", tr, b, elem, L, ln, start, end, r, dl)
+    call = "c06::liar_h::<%s, %s, %s>(%s, %s, %s)" % (TR[tr], bk(b, elem, capv), elem, P2(capv, ln, start, end, 0, r), "true" if typed else "false", dim(dl))
+    H(name, call, ["C06"], tier=tier, unwind=unwind_for(elem, capv + 1), dims=dict(L=L, cap=capv, len=ln, start=start, end=end, yielded=r, len_error=dl if not isinstance(dl, str) else "-2..=+2 (symbolic)", elem=elem, backend=b, traits=tr, shape_symbolic=isinstance(ln, str)), role="c06_liar")
 
 
 SCNS = ["Clear", "TClear", "DropVec", "RemoveDrop", "SwapRemoveDrop", "PopDrop", "DrainDrop", "TDrainDrop", "SpliceWrapper", "SpliceRaw", "TSplice"]
@@ -97,8 +98,10 @@ def define():
     # ---- C06
     for i, scn in enumerate(SCNS):
         if "Splice" in scn:
-            fault(scn, "none", "stack", "B3D")
-            fault(scn, "none", "heap", "B3D", shape=(3, 1, 2, 2), tier="quick" if scn == "SpliceRaw" else "rot3")
+            # splice under a symbolic fault point: concrete (len, range, r) per query (symbolic shape: ~10 GB / 10 min)
+            fault(scn, "none", "stack", "B3D", shape=(3, 1, 2, 2))
+            fault(scn, "none", "heap", "B3D", shape=(3, 0, 2, 1), tier="quick" if scn == "SpliceRaw" else "rot3")
+            fault(scn, "none", "stack", "B3D", shape=(2, 1, 1, 2), tier="rot3")
         else:
             fault(scn, "none", "heap" if i % 2 == 0 else "stack", "B3D")
     for i, scn in enumerate(CSCNS):
@@ -109,13 +112,20 @@ def define():
             faultc(scn, "clone", "heap", "B3D", ylen=2)
         else:
             faultc(scn, "clone", "heap" if i % 2 == 0 else "stack", "B3D")
-    liar(False, "none", "stack", "B3D")
-    liar(True, "none", "stack", "B3D", tier="rot2")
-    liar(False, "none", "heap", "B3D", L=2, ln=2, start=1, end=2, tier="rot2")
+    liar(False, "none", "stack", "B3D", ln=2, start=1, end=2)
+    liar(True, "none", "stack", "B3D", ln=2, start=0, end=0, tier="rot2")
+    liar(False, "none", "stack", "B3D", ln=1, start=0, end=1, tier="rot2")
+    n = 0
+    for r in (0, 1, 2):
+        for dl in (0, 1, 3, 4):
+            if r + dl - 2 < 0:
+                continue
+            n += 1
+            liar(False, "none", "heap", "B3D", L=2, ln=2, start=1, end=2, r=r, dl=dl, tier="quick" if (r, dl) in ((1, 4), (2, 0)) else "rot6")
     for scn in SCNS:
         for b in ("heap", "stack", "reloc"):
             for elem in ("B3D", "W8D"):
-                if "Splice" in scn and b != "stack":
+                if "Splice" in scn:
                     for shape in ((3, 1, 2, 2), (3, 0, 3, 1), (2, 1, 1, 2), (3, 0, 1, 0)):
                         fault(scn, "none", b, elem, L=3, fb=1, fmax=7, tier="thorough", shape=shape)
                 else:
@@ -132,6 +142,9 @@ def define():
                     faultc(scn, "clone", b, elem, L=3, fmax=5, tier="thorough")
     for typed in (False, True):
         for elem in ("B3D", "W8D"):
-            liar(typed, "none", "stack", elem, L=2, tier="thorough")
-            for (ln, st, en) in ((2, 1, 2), (2, 0, 0), (1, 0, 1)):
-                liar(typed, "none", "heap", elem, L=2, ln=ln, start=st, end=en, tier="thorough")
+            for (ln, st, en) in ((2, 1, 2), (2, 0, 0), (1, 0, 1), (2, 0, 2)):
+                liar(typed, "none", "stack", elem, L=2, ln=ln, start=st, end=en, tier="thorough")
+                for r in (0, 1, 2):
+                    for dl in (0, 1, 3, 4):
+                        if r + dl - 2 >= 0:
+                            liar(typed, "none", "heap", elem, L=2, ln=ln, start=st, end=en, r=r, dl=dl, tier="thorough" if elem == "B3D" else "rot64")
